@@ -1637,7 +1637,9 @@ def tdm_case(draw):
     # the program
     T = draw(st.integers(1, 4))
     mut = draw(st.sampled_from(["none"] * 8 + ["arr_out", "arr_out", "const_differs", "const_by_array", "const_by_array", "array_by_const", "dagger",
-                                              "swap_order", "bs_modes", "wrong_gate", "too_long", "concurrent", "near_range", "barely_out", "barely_out"]))
+                                              "swap_order", "bs_modes", "wrong_gate", "too_long", "concurrent", "near_range", "barely_out", "barely_out", "arr_gap", "arr_gap"]))
+    if mut == "arr_gap":
+        T = max(T, 3)  # room for an allowed minimum, an allowed maximum and an entry in a gap of the allowed set between them
     if mut == "too_long":
         T = tmax + 1
     arrays, pops = [], []
@@ -1665,6 +1667,15 @@ def tdm_case(draw):
                     hi = max(float(it[-1]) if isinstance(it, (list, tuple)) else float(it) for it in items)
                     # barely_out: a few times the documented absolute tolerance (1e-5) of the range test
                     vals[draw(st.integers(0, T - 1))] = hi + (0.5 if mut == "arr_out" else (3e-6 if mut == "near_range" else draw(st.sampled_from([4e-5, 1e-4]))))
+                if here and mut == "arr_gap":
+                    # allowed sets are unions of single values and intervals: an entry in a gap BETWEEN allowed values, while the smallest
+                    # and the largest entry of the array are allowed
+                    pts = sorted((float(it[0]), float(it[1])) if isinstance(it, (list, tuple)) else (float(it), float(it)) for it in items)
+                    gaps = [(a[1], b[0]) for a, b in zip(pts, pts[1:]) if b[0] - a[1] > 1e-3]
+                    if gaps:
+                        lo_, hi_ = gaps[draw(st.integers(0, len(gaps) - 1))]
+                        vals = [lo_, hi_] + [lo_ + (hi_ - lo_) * draw(st.sampled_from([0.5, 0.25, 0.9]))] + vals[3:]
+                        vals = list(draw(st.permutations(vals)))
                 arrays.append(vals)
                 ps.append(["arr", len(arrays) - 1])
         flags = {"H": True} if mut == "dagger" and pick is not None and pick[0] == i and gate in ("Sgate", "BSgate", "Rgate") else {}
